@@ -588,16 +588,8 @@ def run_modules(ctx, mods):
             continue
         todo.append((k, md, ir))
     # model verdict on the scopes (Python mirror, validated by Coq below)
-    cases = []
     for k, md, ir in todo:
-        exp = []
-        for sc in md["scopes"]:
-            colls = py_collisions(scope_groups(sc))
-            sc["_colls"] = colls
-            exp.append((sc, colls))
-        md["_scope_colls"] = exp
-        terms = fw.coq_list([scope_term(sc) for sc in md["scopes"]])
-        cases.append((terms, None, md))
+        md["_scope_colls"] = [(sc, py_collisions(scope_groups(sc))) for sc in md["scopes"]]
     # build
     t0 = time.time()
     wd = os.path.join(ctx.bdir, "cpp")
